@@ -20,11 +20,69 @@ I, Rl = z3.Int, z3.Real
 PI = V.PI
 
 
+def install_bf_models(reg):
+    """TRUSTED torch models used only by unwrap_bf_overlap_phase_torch (contents abstracted: the obligations there are about
+    which arguments reach each unwrapping pass, not about values)."""
+    import torch
+
+    def m_angle(interp, x):
+        if isinstance(x, SymArr):
+            r = interp.ctx.fresh_arr("angle", x.shape, "real")
+            r.as_type = torch.Tensor
+            return r
+        return interp.native(torch.angle, x)
+
+    reg.models[torch.angle] = m_angle
+    old_zl = reg.models.get(torch.zeros_like)
+
+    def m_zeros_like(interp, x, dtype=None, **kw):
+        if isinstance(x, SymArr):
+            kind = "bool" if dtype is torch.bool else "real" if dtype in (torch.float32, torch.float64) else x.kind
+            r = tm.tensor(x.shape, lambda *i: (False if kind == "bool" else 0.0), kind)
+            return r
+        return interp.native(torch.zeros_like, x, dtype=dtype, **kw)
+
+    reg.models[torch.zeros_like] = m_zeros_like
+
+
+class MaskedOps:
+    """Boolean-mask get/set on symbolic tensors: contents abstracted (fresh), shapes kept."""
+
+
+def _masked_getitem(interp, base, key):
+    if isinstance(key, SymArr) and key.kind == "bool" and key.ndim == base.ndim:
+        n = interp.ctx.fresh("n_selected", "int")
+        interp.ctx.assume(n.t >= 0)
+        r = interp.ctx.fresh_arr("selected", (n,), base.kind if base.kind in ("int", "real", "bool") else "real")
+        return r
+    return NotImplemented
+
+
+def _masked_setitem(interp, base, key, v):
+    if isinstance(key, SymArr) and key.kind == "bool" and key.ndim == base.ndim:
+        fresh = interp.ctx.fresh_arr("scattered", base.shape, base.kind if base.kind in ("int", "real", "bool") else "real")
+        base.fn = fresh.fn
+        base.writes += 1
+        return True
+    return NotImplemented
+
+
 def make_registry():
     reg = registry()
     tm.install(reg)
+    prev_get = reg.getitem_models.get(SymArr)
+
+    def gi(interp, base, key):
+        r = _masked_getitem(interp, base, key)
+        if r is not NotImplemented:
+            return r
+        return prev_get(interp, base, key) if prev_get else NotImplemented
+
+    reg.getitem_models[SymArr] = gi
+    reg.setitem_models[SymArr] = _masked_setitem
     for c in CONTRACTS + ASSUMED_CONTRACTS:
         reg.add_contract(c)
+    install_bf_models(reg)
     reg.abstract_classes.add(f"{IU}:UnionFindPhase")
     return reg
 
@@ -422,7 +480,84 @@ C_DRIVER = Contract(
     loops={0: LoopSpec(inv=drv_loop_inv, havoc={"uf": drv_havoc})},
 )
 
-CONTRACTS = [C_INIT, C_FIND, C_UNION, C_FINAL, C_FINDWRAP, C_WRAP, C_DRIVER]
+# ---- dispatch and the bright-field embedding: every pass must receive the caller's method / mask / wrap_around
+DPU = "quantem.diffractive_imaging.direct_ptycho_utils"
+
+
+def disp_setup(ctx):
+    s = drv_setup(ctx)
+    s.phi_wrapped = s.phi
+    s.method = "reliability-sorting"
+    s.regularization_lambda = None
+    return s
+
+
+def disp_ensures(s):
+    r = s.interp.ctx.ghost.get("driver_call")
+    return [("dispatches-to-the-reliability-sorting-driver-with-the-same-arguments",
+             r is not None and r[0] is s.phi and r[1] is s.mask and (r[2] is s.wrap_around))]
+
+
+def drvstub_result(ctx, s):
+    ctx.ghost["driver_call"] = (s.phi, s.mask, s.wrap_around)
+    return ctx.fresh_arr("unwrapped", s.phi.shape, "real")
+
+
+C_DRIVER_STUB = Contract(f"{IU}:_unwrap_phase_2d_torch_reliability_sorting", setup=None, result=drvstub_result,
+                         note="call-site stub used while verifying the dispatcher: records the arguments it was given")
+
+
+def bf_setup(ctx):
+    import torch
+
+    K = ctx.fresh("n_bf", "int")
+    H, W = ctx.fresh("H", "int"), ctx.fresh("W", "int")
+    ctx.assume(AND(K.t >= 1, H.t >= 1, W.t >= 1))
+    data = ctx.fresh_arr("complex_data_bf", (K,), "real")
+    mask_bf = ctx.fresh_arr("mask_bf", (K,), "bool")
+    bf_mask = ctx.fresh_arr("bf_mask", (H, W), "bool")
+    for a in (data, mask_bf, bf_mask):
+        a.as_type = torch.Tensor
+    wrap = ctx.fresh("wrap_around", "bool")
+    two_pass = ctx.fresh("two_pass", "bool")
+    ctx.ghost["expected"] = dict(wrap_around=wrap, method="reliability-sorting")
+    ctx.ghost["passes"] = []
+    return NS(complex_data_bf=data, mask_bf=mask_bf, bf_mask=bf_mask, method="reliability-sorting", two_pass=two_pass,
+              kwargs=dict(wrap_around=wrap))
+
+
+def up_requires(s):
+    exp = s.ctx.ghost["expected"]
+    wa = s.wrap_around
+    same = (wa is exp["wrap_around"]) if not isinstance(wa, bool) else False
+    return [("wrap_around-is-the-caller's", same), ("method-is-the-caller's", s.method == exp["method"]),
+            ("a-validity-mask-is-passed", s.mask is not None)]
+
+
+def up_result(ctx, s):
+    ctx.ghost["passes"].append(s.mask)
+    r = ctx.fresh_arr("unwrapped", s.phi_wrapped.shape, "real")
+    r.as_type = __import__("torch").Tensor
+    return r
+
+
+C_UNWRAP_ANY = Contract(f"{IU}:unwrap_phase_2d_torch", setup=disp_setup, requires=None, ensures=disp_ensures,
+                        overrides={f"{IU}:_unwrap_phase_2d_torch_reliability_sorting": C_DRIVER_STUB})
+C_UNWRAP_CALLEE = Contract(f"{IU}:unwrap_phase_2d_torch", setup=None, requires=up_requires, result=up_result,
+                           note="call-site view used while verifying unwrap_bf_overlap_phase_torch")
+
+
+def bf_ensures(s):
+    passes = s.ctx.ghost["passes"]
+    return [("all-passes-use-the-same-validity-grid", all(m is passes[0] for m in passes) if passes else True),
+            ("at-most-two-passes", len(passes) <= 2),
+            ("second-pass-only-when-two_pass", implies(NOT(s.two_pass), len(passes) <= 1))]
+
+
+C_BFOVERLAP = Contract(f"{DPU}:unwrap_bf_overlap_phase_torch", setup=bf_setup, ensures=bf_ensures,
+                       overrides={f"{IU}:unwrap_phase_2d_torch": C_UNWRAP_CALLEE})
+
+CONTRACTS = [C_INIT, C_FIND, C_UNION, C_FINAL, C_FINDWRAP, C_WRAP, C_DRIVER, C_UNWRAP_ANY, C_BFOVERLAP]
 ASSUMED_CONTRACTS = [C_BUILD, C_REL]
 
 # ------------------------------------------------------------------------------------------------
@@ -765,8 +900,9 @@ def fam_bf_overlap(tier="quick", seed=0):
 
 for _c in (C_INIT, C_FIND, C_UNION, C_FINAL):
     _c.rt, _c.rt_family = rt_unionfind, fam_unionfind
-for _c in (C_FINDWRAP, C_WRAP):
+for _c in (C_FINDWRAP, C_WRAP, C_DRIVER, C_UNWRAP_ANY):
     _c.rt, _c.rt_family = rt_unwrap, fam_unwrap
+C_BFOVERLAP.rt, C_BFOVERLAP.rt_family = rt_bf_overlap, fam_bf_overlap
 
 BOUNDED = [
     Bounded.from_rt("union-find random consistent union sequences", rt_unionfind, fam_unionfind, "n<=8, <=15 unions, 3 seeds"),
